@@ -22,6 +22,12 @@ def jobs():
     for f in sorted(glob.glob("/tmp/nt_C*/_seed/ref*.diff")):
         pid = f.split("/")[2][3:]
         out.append((pid, "N", f"nt {pid}-{f[-6]}", f))
+    for f in sorted(glob.glob("/tmp/r3_C*/_seed/mut*.diff")):
+        pid = f.split("/")[2][3:]
+        out.append((pid, "B", f"r3 {pid}-{f[-6]}", f))
+    for f in sorted(glob.glob("/tmp/n3_C*/_seed/ref*.diff")):
+        pid = f.split("/")[2][3:]
+        out.append((pid, "N", f"n3 {pid}-{f[-6]}", f))
     return out
 
 def run(job):
